@@ -527,3 +527,4 @@ fn web_encode_trailers_repeated() {
     kani::cover!(v1[0] != v2[0], "two different values");
     core::mem::forget(out);
 }
+
